@@ -312,6 +312,22 @@ theorem step_inv1 {s s' : State} {x : Inst} {a : Act} (inv : Inv1 s x) (hsc : in
           (fun f hf => hf) (fun u hu => hu) (fun hl => by simp at hl)
         simpa [setInst, hs] using this
       · simp at hstep
+  | jobAbandon id =>
+    simp only [step] at hstep
+    injection hstep with hstep; subst hstep
+    refine ⟨x, ?_⟩
+    exact {
+      shape := hs
+      norel := inv.norel
+      safe := by
+        intro f hf
+        have hf := (mem_needed1 (x := x) (by exact hs) f).mp hf
+        rcases hf with hl | ⟨h, hh, hr⟩
+        · exact inv.safe _ ((mem_needed1 hs _).mpr (Or.inl hl))
+        · exact inv.safe _ ((mem_needed1 hs _).mpr (Or.inr ⟨h, (List.mem_filter.mp hh).1, hr⟩))
+      own := fun h hh => inv.own h (List.mem_filter.mp hh).1
+      wuniq := inv.wuniq
+      wnum := inv.wnum }
   | jobDrop k =>
     simp only [step] at hstep
     split at hstep
@@ -698,6 +714,9 @@ theorem step_frame {s s' : State} {a : Act} {j : Nat} {x : Inst} (h : step s a =
     · simp at h
     · injection h with h; subst h
       exact frame_same (fun _ hu => hu) (happ _)
+  | jobAbandon id =>
+    simp only [step] at h
+    injection h with h; subst h; exact frame_same (fun _ hu => hu) hj
   | jobDrop k =>
     simp only [step] at h
     split at h
@@ -950,6 +969,9 @@ theorem step_removes_sst {s s' : State} {a : Act} {u : Path} (h : step s a = som
     · simp at h
     · simp at h
     · injection h with h; subst h; exact absurd hin hout
+  | jobAbandon id =>
+    simp only [step] at h
+    injection h with h; subst h; exact absurd hin hout
   | jobDrop k =>
     simp only [step] at h
     split at h
@@ -1078,6 +1100,9 @@ theorem step_removes_wal {s s' : State} {a : Act} {v : Wal} (h : step s a = some
     · simp at h
     · simp at h
     · injection h with h; subst h; exact absurd hin hout
+  | jobAbandon id =>
+    simp only [step] at h
+    injection h with h; subst h; exact absurd hin hout
   | jobDrop k =>
     simp only [step] at h
     split at h
